@@ -343,3 +343,175 @@ Proof.
       * intros [|i] p v Hp Hv; cbn in Hp, Hv; [inversion Hp; inversion Hv; subst; now left|]. right. now apply (I1 i).
       * intros p v HI Hk. right. now apply I2.
 Qed.
+
+(** ** C14: positional form = keyword form *)
+Lemma str_in_In x l : str_in x l = true <-> In x l.
+Proof.
+  unfold str_in. rewrite existsb_exists. split.
+  - intros [y [H1 H2]]. apply str_eqb_eq in H2. now subst.
+  - intros H. exists x. split; [assumption|apply str_eqb_refl].
+Qed.
+Lemma nodupb_NoDup l : nodupb l = true -> NoDup l.
+Proof.
+  induction l as [|x r IH]; cbn; intros H; [constructor|]. apply andb_true_iff in H. destruct H as [A B].
+  constructor; [|now apply IH]. intros HI. apply str_in_In in HI. rewrite HI in A. discriminate.
+Qed.
+Lemma wf_dialect_nodup dl : wf_dialect dl = true -> NoDup (pnames dl).
+Proof. unfold wf_dialect. rewrite !andb_true_iff. intros [[[A _] _] _]. now apply nodupb_NoDup. Qed.
+Lemma wf_dialect_kwargs dl : wf_dialect dl = true -> accept_kwargs dl = true.
+Proof. unfold wf_dialect. rewrite !andb_true_iff. now intros [_ A]. Qed.
+
+Lemma kw_del_notin k d : ~ In k (keys d) -> kw_del k d = d.
+Proof.
+  unfold kw_del. induction d as [|[a b] r IH]; cbn; intros H; [reflexivity|].
+  destruct (str_eqb_spec k a) as [->|N]; [exfalso; apply H; now left|]. cbn. f_equal. apply IH. intros HI; apply H; now right.
+Qed.
+Lemma keys_combine_in k l (v : list pystr) : In k (keys (combine l v)) -> In k l.
+Proof.
+  unfold keys. intros H. apply in_map_iff in H. destruct H as [[a b] [<- H]]. now apply in_combine_l in H.
+Qed.
+Lemma bind_params_pos_kw ps : forall vals kws, NoDup (map pname ps) -> length vals <= length ps ->
+  (forall k, In k (keys (combine (map pname ps) vals)) -> ~ In k (keys kws)) ->
+  bind_params ps vals kws = bind_params ps [] (combine (map pname ps) vals ++ kws).
+Proof.
+  induction ps as [|p r IH]; intros vals kws ND Hl Hd.
+  - destruct vals; [reflexivity|cbn in Hl; lia].
+  - destruct vals as [|a vals']; [reflexivity|]. inversion ND as [|? ? Hn Hr]; subst.
+    cbn [map combine app bind_params kw_get]. rewrite str_eqb_refl.
+    assert (Hk : kw_get (pname p) kws = None).
+    { rewrite kw_get_assoc. apply assoc_notin. apply Hd. cbn. now left. }
+    rewrite Hk.
+    assert (Hdel : kw_del (pname p) ((pname p, a) :: combine (map pname r) vals' ++ kws) = combine (map pname r) vals' ++ kws).
+    { unfold kw_del. cbn [filter fst]. rewrite str_eqb_refl. cbn [negb]. apply kw_del_notin.
+      unfold keys. rewrite map_app. intros HI. apply in_app_or in HI. destruct HI as [HI|HI].
+      - apply Hn. now apply (keys_combine_in _ _ vals').
+      - apply (Hd (pname p)); [cbn; now left|exact HI]. }
+    rewrite Hdel. rewrite <- IH; [reflexivity|assumption|cbn in Hl; lia|].
+    intros k HI. apply Hd. cbn. now right.
+Qed.
+Lemma NoDup_app_disjoint {A} (a b : list A) : NoDup (a ++ b) -> forall x, In x a -> ~ In x b.
+Proof.
+  induction a as [|y r IH]; cbn; intros ND x HI; [destruct HI|]. inversion ND as [|? ? Hn Hr]; subst.
+  destruct HI as [->|HI]; [intros Hb; apply Hn; apply in_or_app; now right|now apply IH].
+Qed.
+Lemma NoDup_app_r {A} (a b : list A) : NoDup (a ++ b) -> NoDup b.
+Proof. induction a as [|x r IH]; cbn; intros H; [assumption|]. inversion H; subst. now apply IH. Qed.
+Lemma nondeg pos kws : pos ++ map render_kw kws = [[]] -> pos = [[]] /\ kws = [].
+Proof.
+  destruct pos as [|x [|y r]]; cbn; intros H.
+  - destruct kws as [|kv [|kv' r]]; cbn in H; try discriminate. inversion H as [H1].
+    unfold render_kw in H1. destruct (fst kv); discriminate.
+  - inversion H as [[H1 H2]]. apply map_eq_nil in H2. now subst.
+  - discriminate.
+Qed.
+
+(** writing the first values positionally or all by keyword gives the same result (same map, same
+    error), for every oracle and every dialect with distinct, clean parameter names *)
+Theorem bind_pos_kw fo dl vals kws :
+  NoDup (pnames dl) -> forallb clean (pnames dl) = true ->
+  Forall (fun v => clean v = true) vals -> Forall (fun kv => clean_entry kv = true) kws ->
+  length vals <= length (params dl) ->
+  NoDup (keys (combine (pnames dl) vals ++ kws)) ->
+  vals <> [[]] \/ kws <> [] ->
+  parse_dialect fo dl (render vals kws) = parse_dialect fo dl (render [] (combine (pnames dl) vals ++ kws)).
+Proof.
+  intros NDp Cn Fv Fk Hl ND NE. unfold parse_dialect.
+  unfold keys in ND. rewrite map_app in ND.
+  assert (Fc : Forall (fun kv => clean_entry kv = true) (combine (pnames dl) vals)).
+  { apply Forall_forall. intros [k v] HI. unfold clean_entry. cbn. apply andb_true_iff. split.
+    - apply in_combine_l in HI. rewrite forallb_forall in Cn. now apply Cn.
+    - apply in_combine_r in HI. rewrite Forall_forall in Fv. now apply Fv. }
+  rewrite split_render; [|assumption|assumption|now apply NoDup_app_r in ND|].
+  2:{ intros E. apply nondeg in E. destruct E as [-> ->]. destruct NE; congruence. }
+  rewrite split_render; [|constructor|apply Forall_app; now split|unfold keys; now rewrite map_app|].
+  2:{ intros E. apply nondeg in E. destruct E as [E _]. discriminate. }
+  cbn. unfold bind_cast. unfold pnames in *. rewrite (bind_params_pos_kw (params dl) vals kws); [reflexivity|assumption|assumption|].
+  intros k HI. now apply (NoDup_app_disjoint _ _ ND).
+Qed.
+
+(** ** C14: keyword order is irrelevant *)
+Lemma Permutation_filter' {A} (f : A -> bool) l l' : Permutation l l' -> Permutation (filter f l) (filter f l').
+Proof.
+  induction 1; cbn.
+  - constructor.
+  - destruct (f x); [now constructor|assumption].
+  - destruct (f x), (f y); try reflexivity; try (now constructor).
+  - etransitivity; eassumption.
+Qed.
+Lemma NoDup_keys_filter (f : pystr * pystr -> bool) l : NoDup (keys l) -> NoDup (keys (filter f l)).
+Proof.
+  unfold keys. induction l as [|x r IH]; cbn; intros ND; [constructor|]. inversion ND as [|? ? Hn Hr]; subst.
+  destruct (f x); cbn; [constructor|]; auto.
+  intros HI. apply Hn. apply in_map_iff in HI. destruct HI as [y [E HI]]. apply filter_In in HI. rewrite <- E. apply in_map. apply HI.
+Qed.
+Definition bp_rel (x y : res (list (param * option pystr) * kwdict)) : Prop :=
+  match x, y with
+  | Ok (b, r), Ok (b', r') => b = b' /\ Permutation r r' /\ NoDup (keys r)
+  | Err e, Err e' => e = e'
+  | _, _ => False
+  end.
+Lemma bind_params_perm ps : forall args kws kws', Permutation kws kws' -> NoDup (keys kws) ->
+  bp_rel (bind_params ps args kws) (bind_params ps args kws').
+Proof.
+  induction ps as [|p r IH]; intros args kws kws' P ND.
+  - destruct args; cbn; auto.
+  - cbn [bind_params]. rewrite !kw_get_assoc. rewrite <- (assoc_perm (pname p) kws kws' P ND).
+    destruct args as [|a args'].
+    + destruct (assoc (pname p) kws) as [v|].
+      * specialize (IH [] (kw_del (pname p) kws) (kw_del (pname p) kws') (Permutation_filter' _ _ _ P) (NoDup_keys_filter _ _ ND)).
+        unfold bp_rel in *. destruct (bind_params r [] (kw_del (pname p) kws)) as [[b1 r1]|e1], (bind_params r [] (kw_del (pname p) kws')) as [[b2 r2]|e2]; cbn; try tauto.
+        destruct IH as [-> [? ?]]. auto.
+      * specialize (IH [] kws kws' P ND).
+        unfold bp_rel in *. destruct (bind_params r [] kws) as [[b1 r1]|e1], (bind_params r [] kws') as [[b2 r2]|e2]; cbn; try tauto.
+        destruct IH as [-> [? ?]]. auto.
+    + destruct (assoc (pname p) kws) as [v|]; [reflexivity|].
+      specialize (IH args' kws kws' P ND).
+      unfold bp_rel in *. destruct (bind_params r args' kws) as [[b1 r1]|e1], (bind_params r args' kws') as [[b2 r2]|e2]; cbn; try tauto.
+      destruct IH as [-> [? ?]]. auto.
+Qed.
+Lemma aget_aupdate k b : forall a,
+  aget k (aupdate a b) = match assoc k (rev b) with Some v => Some v | None => aget k a end.
+Proof.
+  unfold aupdate. induction b as [|[k' v'] r IH]; intros a; cbn [fold_left rev]; [reflexivity|].
+  rewrite IH. rewrite assoc_app. cbn [fst snd]. destruct (assoc k (rev r)); [reflexivity|]. cbn.
+  destruct (str_eqb_spec k k') as [->|N]; [apply aget_aset_same|now apply aget_aset_other].
+Qed.
+Lemma finish_perm dl vals r r' : Permutation r r' -> NoDup (keys r) ->
+  attrs_equiv (finish dl vals r) (finish dl vals r').
+Proof.
+  intros P ND k. unfold finish. rewrite !aget_aupdate.
+  destruct (assoc k (rev (reserved_items dl vals))); [reflexivity|].
+  assert (E : assoc k (rev (free_items r)) = assoc k (rev (free_items r'))).
+  { apply assoc_perm.
+    - rewrite <- !Permutation_rev. unfold free_items. now apply Permutation_map.
+    - eapply Permutation_NoDup; [apply Permutation_map, Permutation_rev|].
+      unfold free_items. rewrite map_map. cbn. exact ND. }
+  now rewrite E.
+Qed.
+Theorem bind_cast_perm fo dl args kws kws' : Permutation kws kws' -> NoDup (keys kws) ->
+  res_equiv (bind_cast fo dl args kws) (bind_cast fo dl args kws').
+Proof.
+  intros P ND. unfold bind_cast. pose proof (bind_params_perm (params dl) args kws kws' P ND) as H.
+  unfold bp_rel in H.
+  destruct (bind_params (params dl) args kws) as [[b1 r1]|e1], (bind_params (params dl) args kws') as [[b2 r2]|e2]; cbn; try tauto.
+  destruct H as [-> [Pr NDr]].
+  assert (E : match r1 with [] => false | _ => true end = match r2 with [] => false | _ => true end).
+  { destruct r1, r2; try reflexivity; [apply Permutation_nil in Pr|apply Permutation_sym, Permutation_nil in Pr]; discriminate. }
+  rewrite E. destruct (negb (accept_kwargs dl) && match r2 with [] => false | _ => true end); cbn; [reflexivity|].
+  destruct (cast_bound fo b2); cbn; [|reflexivity]. now apply finish_perm.
+Qed.
+(** any permutation of the keyword entries (distinct keys) gives the same finite map / the same error *)
+Theorem bind_perm fo dl pos kws kws' :
+  Forall (fun v => clean v = true) pos -> Forall (fun kv => clean_entry kv = true) kws ->
+  NoDup (keys kws) -> Permutation kws kws' -> pos <> [[]] \/ kws <> [] ->
+  res_equiv (parse_dialect fo dl (render pos kws)) (parse_dialect fo dl (render pos kws')).
+Proof.
+  intros Fp Fk ND P NE. unfold parse_dialect.
+  rewrite split_render; [|assumption|assumption|assumption|].
+  2:{ intros E. apply nondeg in E. destruct E as [-> ->]. destruct NE; congruence. }
+  rewrite split_render; [|assumption| | |].
+  - cbn. now apply bind_cast_perm.
+  - eapply Permutation_Forall; eassumption.
+  - eapply Permutation_NoDup; [apply Permutation_map, P|exact ND].
+  - intros E. apply nondeg in E. destruct E as [-> ->]. apply Permutation_sym, Permutation_nil in P. destruct NE; congruence.
+Qed.
